@@ -1,5 +1,6 @@
 // C08: a constructed THDM reproduces the inputs it was constructed from.
 #include "gen.hpp"
+#include <Eigen/SVD>
 
 using namespace gm2calc;
 using vh::J;
@@ -90,6 +91,27 @@ int main(int argc, char** argv) {
          // with the decomposition convention m = V^T diag U the left-handed rotation is V^*, so the CKM matrix is conj(Vu Vd^+): Jarlskog invariant with opposite sign
          const double Jm = -std::imag(ck2(0, 1) * ck2(1, 2) * std::conj(ck2(0, 2)) * std::conj(ck2(1, 1))), Js = std::imag(V(0, 1) * V(1, 2) * std::conj(V(0, 2)) * std::conj(V(1, 1)));
          clause("CKM-Jarlskog", ty + "|ckm" + std::to_string(ck), std::fabs(Jm - Js), 1e-10, c);
+      }
+      // derived getters: angles, vevs, tadpole equations, fermion mass matrices and their mixing matrices
+      {
+         const double tb = m.get_tan_beta(), be = std::atan(tb);
+         clause("derived:beta", ty, std::fabs(m.get_beta() - be), 4e-16, c);
+         clause("derived:v1,v2", ty, std::max(std::fabs(m.get_v2() / m.get_v1() / tb - 1), std::fabs((m.get_v1() * m.get_v1() + m.get_v2() * m.get_v2()) / m.get_v_sqr() - 1)), 1e-14, c);
+         typedef Eigen::Matrix<std::complex<double>, 3, 3> CM3;
+         struct Fs { const char* n; CM3 G, P, V, U; Eigen::Array<double, 3, 1> M; };
+         const Fs fs[3] = {{"u", m.get_Gamma_u(), m.get_Pi_u(), m.get_Vu(), m.get_Uu(), m.get_MFu()}, {"d", m.get_Gamma_d(), m.get_Pi_d(), m.get_Vd(), m.get_Ud(), m.get_MFd()}, {"l", m.get_Gamma_l(), m.get_Pi_l(), m.get_Ve(), m.get_Ue(), m.get_MFe()}};
+         double eu = 0, er = 0, es = 0;
+         for (const Fs& f : fs) {
+            const CM3 M = (m.get_v1() * f.G + m.get_v2() * f.P) / std::sqrt(2.0);
+            const double nrm = M.norm();
+            eu = std::max({eu, (f.V * f.V.adjoint() - CM3::Identity()).norm(), (f.U * f.U.adjoint() - CM3::Identity()).norm()});
+            er = std::max(er, (f.V.transpose() * f.M.matrix().cast<std::complex<double>>().asDiagonal() * f.U - M).norm() / nrm);
+            Eigen::JacobiSVD<CM3> svd(M); Eigen::Array<double, 3, 1> sv = svd.singularValues().array().reverse();
+            es = std::max(es, (sv - f.M).abs().maxCoeff() / nrm);
+         }
+         clause("derived:fermion-mixing-unitary", ty, eu, 1e-12, c);
+         clause("derived:fermion-mass-matrix=V^T.M.U", ty, er, 1e-10, c);
+         clause("derived:fermion-masses=singular-values-of-(v1.Gamma+v2.Pi)/sqrt2", ty, es, 1e-12, c);
       }
       // rebuild from the lambda_1..7 it reports (gauge basis) and compare the spectra; then back to the mass basis
       {
